@@ -60,6 +60,7 @@ func init() {
 		Explanation: "Decides: the typestate table of Subscription.state (who may move a subscription into which state); populate → hand the frame over → release on every path (PAIR/rpc-resources); the shapes the collector relies on: ReleaseRPCResources marks sent, descends into every reference and then opens the loading gate; populateResources* count an edge once, skip sent resources and mark ToSend before descending; removeCount's counter effects follow its direct/sent/tryDelete arguments; every disposed subscription leaves the connection's table (DOM/ref-shapes); references are released with the parent's sent-ness as it was while the edge was counted (PROV/sent-flag: known finding F6); the sent-count is raised once per created edge (PAIR/edge-sent-once: known finding F8); a re-sendable resource has a current snapshot and a closed gate (PAIR/snapshot-current: known finding F13); no change on a collection, no add/remove on a model, decoded indexes inside [0,len] (DOM/index-kind-guard); no event before the hand-over (DOM/event-gate); recursion census. NOT decided — and this is the core of the property: correctness of the two-pass reference-count collector tryDelete/Unsend and of the indirectsent arithmetic on arbitrary reference graphs.",
 		Assumptions: baseAssumptions,
 		Rules: []Rule{
+			{Name: "PAIR/version-bump", Min: 2, Run: ruleVersionBump, Doc: "a shared cache entry is not re-initialised (version reset) by a second query that normalises to it: subscribers would apply later add/remove events to a stale collection"},
 			{Name: "PAIR/sent-with-frame", Min: 2, Run: ruleSentWithFrame, Doc: "an edge is counted as sent in the task that writes its frame, not before a wait"},
 			{Name: "TYPESTATE/sub-state", Min: 5, Run: ruleStateTable("server.Subscription.state", subStateNames, subStateTable), Doc: "who may move a subscription into which state"},
 			{Name: "PAIR/rpc-resources", Min: 2, Run: ruleRPCResources, Doc: "populate, send, release"},
@@ -160,6 +161,7 @@ func init() {
 		Explanation: "Decides, for every path and schedule: rpc.HandleRequest performs exactly one Reply per dispatched request, directly or inside a handler continuation, and Reply is called from nowhere else (LIN/reply); every continuation parameter of the handlers and combinators is consumed exactly once on every full path — called, delegated to another linear function, or parked in a pending slot (LIN/continuations); pending callback slots are cleared only after draining, or when the connection itself goes away (LIN/drain: known finding F9 — Dispose drops ready callbacks on a live connection); an answered throttled request always frees its slot, so the access checks queued behind it — and the client requests waiting for them — are not stranded (PAIR/throttle-slot); continuations run on the connection worker (CTX/conn); every outcome of a get response collects the subscribers waiting on it (DOM/answer-waiting); slot bookkeeping is finished before continuations run (DOM/drain-reentrancy). Not decided: liveness (that a parked continuation is eventually run), the readyCallback.loading countdown arithmetic.",
 		Assumptions: append([]string{"mq.Client.SendRequest completes exactly once (C18)", "a continuation refused by wsConn.Enqueue because the connection is disposing is an accepted drop"}, baseAssumptions...),
 		Rules: []Rule{
+			{Name: "WHO/handler-callers", Min: 3, Run: ruleHandlerCallers, Doc: "a derived delete goes through handleEvent, which discards it while the initial get is outstanding (the waiting subscribers stay registered and are answered)"},
 			{Name: "DOM/answer-waiting", Min: 1, Run: ruleAnswerWaiting, Doc: "every outcome of a get response collects the subscribers waiting on it"},
 			{Name: "DOM/drain-reentrancy", Min: 2, Run: ruleDrainReentrancy, Doc: "slot bookkeeping finished before the slot's continuations run (they may re-enter)"},
 			{Name: "LIN/reply", Min: 1, Run: ruleReply, Doc: "HandleRequest: exactly one Reply per dispatched request; Reply called from nowhere else"},
@@ -178,6 +180,7 @@ func init() {
 		Explanation: "Decides: on every continuation path of every function that takes a direct subscription the count is released exactly once on every failure and on every outcome of get-type handlers, kept exactly on the success of subscribe-type handlers, and never released when Subscribe itself failed (PAIR/direct-count); an unsubscribe removes counts only behind the test direct >= count with the same count (DOM/unsub-precond); the count parameter is validated as positive (DOM/count-param); direct++ only below the limit (DOM/sub-limit); revocation and delete remove all direct subscriptions (DOM/revoke); direct is written by addCount/removeCount only; params that carry no count unsubscribe once: a decoded-params path reaches UnsubscribeResource with the default 1 (DOM/unsub-precond). Not decided: numeric equality of the counter with the response history (it is the sum of the per-path facts).",
 		Assumptions: append([]string{"LIN (C07): every handler replies exactly once", "a task refused by a disposing connection needs no release (dispose releases everything)"}, baseAssumptions...),
 		Rules: []Rule{
+			{Name: "PAIR/loaded-handover", Min: 1, Run: rulePairLoaded, Doc: "a get answer arriving after the failed request was released gives its cache use back"},
 			{Name: "PAIR/direct-count", Min: 2, Run: rulePairDirect, Doc: "acquire/release of the direct count along every continuation path"},
 			{Name: "DOM/unsub-precond", Min: 1, Run: ruleUnsubPrecond, Doc: "unsubscribe precondition, count validation, limit"},
 			{Name: "DOM/revoke", Min: 1, Run: ruleRevoke, Doc: "revocation / delete remove all direct subscriptions"},
@@ -242,6 +245,7 @@ func init() {
 		Explanation: "Decides the plumbing and protocol clauses only: a matching entry is re-fetched once, with get.<name> and its normalised query, unless a reset is already outstanding; the resetting flag is set before the request and cleared before the answer is processed, in both the throttled and the unthrottled twin; the base resource (unless it is a link) and every cached query variant are visited exactly once, for resources and for access (DOM/reset-protocol); derived events go through handleEvent, state events are dropped only while resetting (CONF/handle-event); invalid patterns match nothing at the recogniser level (TABLE/reject-set); only valid patterns are matched (DOM/valid-patterns); content is replaced copy-on-write (DOM/copy-on-write). NOT decided — the heart of the property: wildcard matching semantics for all names, that the model diff and the LCS edit script transform old into new with indexes in range, that unchanged content yields no event.",
 		Assumptions: baseAssumptions,
 		Rules: []Rule{
+			{Name: "PAIR/query-lock", Min: 1, Run: ruleQueryLock, Doc: "a failed query request releases its lock: a later system reset on the resource is processed"},
 			{Name: "DOM/reset-protocol", Min: 1, Run: ruleResetProtocol, Doc: "re-fetch once per matching entry with its normalised query; flag protocol; visit base and queries"},
 			{Name: "DOM/copy-on-write", Min: 1, Run: ruleCopyOnWrite, Doc: "cached model/collection values are never written in place"},
 			{Name: "CONF/handle-event", Min: 1, Run: ruleHandleEvent, Doc: "derived events go through handleEvent; state events dropped only while resetting"},
@@ -257,6 +261,7 @@ func init() {
 		Explanation: "Decides: the queue is locked with len(queries) of the map that is iterated unmodified, each iteration releases exactly one lock on every outcome of its request (all early returns are inside the unlock task), nothing returns between locking and the end of the iteration, locks are installed only for a positive count; the request goes to the event's subject with the range key as query; answers are applied through per-iteration values, full model/collection answers only behind the matching kind test (PAIR/query-lock); no deferred closure captures a shared loop variable (DOM/loopvar); an initial load re-initialises an entry only under the not-loaded test of that same entry, so an alias arriving later cannot reset a shared resource (PAIR/version-bump); a repeated Loaded is ignored (LIN/loaded-once); Enqueue wakes no worker while locks are set (DOM/inch-send); unregister clears base / queries / links including the empty alias (DOM/unregister); every outcome of a get response collects the waiting subscribers (DOM/answer-waiting). Not decided: the capacity countdown arithmetic of the lock list; two aliasing gets in flight beyond the loaded-once guard.",
 		Assumptions: baseAssumptions,
 		Rules: []Rule{
+			{Name: "CONF/worker-loop", Min: 2, Run: ruleWorkerLoops, Doc: "every unlock task appended while another runs is run: the lock loop re-reads the queue length"},
 			{Name: "CTX/async-completion", Min: 1, Run: ruleAsyncCompletion, Doc: "the completion of a request never runs on the sender's stack (senders hold their own mutex)"},
 			{Name: "DOM/unregister", Min: 1, Run: ruleUnregister, Doc: "a removed cache entry is cleared from every index (base, queries, links)"},
 			{Name: "DOM/answer-waiting", Min: 1, Run: ruleAnswerWaiting, Doc: "every outcome of a get response collects the subscribers waiting on it"},
@@ -285,6 +290,7 @@ func init() {
 		Explanation: "Decides the panic classes that have a crisp rule: decoders return no data with an error, so log-and-continue callers cannot apply a partial message, and return the decoded object whenever they report success, so callers that dereference it cannot hit nil (DOM/all-or-nothing); decoded indexes reach slice operations only inside [0,len] with the exact bound for element access vs slicing, content is dereferenced only for the right kind (DOM/index-kind-guard); optional decoded pointers are dereferenced under their nil test or a predicate implying it, null elements of decoded pointer slices are rejected (DOM/opt-deref); explicit panics and unchecked type assertions are the listed ones (CENSUS/panic); no send on a channel that may have been closed (CHAN: known finding F5 for Cache.inCh); recursive cycles are the listed ones with checked guards (REC/census); the mutex acquisition graph is acyclic (LOCK/order); one Done per throttle slot, so the 'negative running counter' panic is unreachable (PAIR/throttle-slot); a failed or malformed re-fetch closes the reset window, so later valid messages are processed normally (DOM/reset-protocol). Not decided: index safety of lcs, ResourcePattern.Match, byte scans in UnmarshalJSON, encoder buffers; JSON library behaviour; memory exhaustion.",
 		Assumptions: baseAssumptions,
 		Rules: []Rule{
+			{Name: "CONF/handle-event", Min: 1, Run: ruleHandleEvent, Doc: "every event, also delete, passes the validation and the listed discards before it is applied"},
 			{Name: "DOM/reset-protocol", Min: 1, Run: ruleResetProtocol, Doc: "a failed or malformed re-fetch closes the reset window: later valid messages are processed normally"},
 			{Name: "DOM/all-or-nothing", Min: 5, Run: ruleDecoders, Doc: "decoders return no data with an error"},
 			{Name: "DOM/index-kind-guard", Min: 4, Run: ruleIndexKindGuards, Doc: "decoded indexes bounded; content of the right kind"},
@@ -303,6 +309,7 @@ func init() {
 		Explanation: "Decides: in both encoders the expansion path is pushed and popped on every successful path, the cycle test and the error-leaf return precede the push, the recursive descent is guarded by the cycle test and the push, so the expansion terminates on cyclic graphs and later siblings are not cut (PAIR/enc-path); the subscription is handed to the renderer before its resources are released, so the rendering is of the graph as cached at response time and not of one that queued events have already changed (PAIR/rpc-resources); HEAD and GET take the same path and HEAD is tested nowhere else; the two encoders agree on the value kinds (TWIN/encode-value); resource responses set Location from the unexpanded rid (PROV/cid-taint clause of C10); every successful path of both encoders, for collections and models of 0, 1 and 2 elements, emits exactly one well-formed JSON value skeleton, and every non-literal write is JSON by construction — json.Marshal, a json.RawMessage from the decoder, an encoded error (PAIR/emit). Not decided — the core: equality of the rendering with the recursive expansion for every graph; JSON well-formedness beyond the guarded structure; RIDToPath/PathToRID as inverse maps.",
 		Assumptions: baseAssumptions,
 		Rules: []Rule{
+			{Name: "PAIR/loaded-handover", Min: 1, Run: rulePairLoaded, Doc: "a repeated Loaded does not re-read the resource after its ready-callbacks were consumed (a reference still loading would be rendered)"},
 			{Name: "PAIR/enc-path", Min: 1, Run: ruleEncoder, Doc: "expansion path balance, cycle guard, HEAD==GET"},
 			{Name: "TWIN/encode-value", Min: 1, Run: ruleEncodeValueTwin, Doc: "value kind dispatch of both encoders"},
 			{Name: "REC/census", Min: 4, Run: ruleRec, Doc: "encoder recursion is a listed cycle"},
@@ -347,6 +354,7 @@ func init() {
 		Explanation: "Decides: running++ only below the limit under the throttle mutex, Done on every non-panic path either decrements or hands the slot to the head of the queue, FIFO (DOM/throttle, FIFO/queues) — so running <= limit is inductive and no slot is lost; each governed closure calls Done exactly once on every continuation path and outside any task the connection may refuse (PAIR/throttle-slot); no zero-limit throttle is created (DOM/limit-positive); throttled and unthrottled twins agree (covered by the same path rules on both); a subscription keeps the throttle of the tree it was loaded in until it is disposed or its loading failed (WHO/throttle). Not decided: the number of outstanding requests as a runtime quantity; global progress under arbitrary answer orders beyond 'every completion frees or hands over exactly one slot'.",
 		Assumptions: append([]string{"C18: each governed request completes"}, baseAssumptions...),
 		Rules: []Rule{
+			{Name: "DOM/drain-reentrancy", Min: 2, Run: ruleDrainReentrancy, Doc: "a deferred check released from inside an access callback finds the in-flight flag cleared and is sent"},
 			{Name: "DOM/invalidate", Min: 1, Run: ruleInvalidate, Doc: "a check deferred because the subscription was busy sends its own request: the verdict is cleared before loadAccess can answer from it"},
 			{Name: "PAIR/throttle-slot", Min: 1, Run: rulePairThrottle, Doc: "exactly one Done per governed request"},
 			{Name: "DOM/throttle", Min: 1, Run: ruleThrottle, Doc: "Add/Done invariant; positive limit at both creation sites"},
